@@ -13,8 +13,10 @@ import (
 	"strconv"
 	"strings"
 	"sync"
+	"syscall"
 	"testing"
 	"time"
+	"unsafe"
 )
 
 type c16case struct {
@@ -29,6 +31,7 @@ type c16case struct {
 	slowInit  bool   // the plugin's registration hook takes 5.5 s (gRPC only)
 	dirName   string // name of the socket / temp directory the host hands to the plugin ("" = a plain name)
 	chatter   bool   // plugin code prints to os.Stdout / os.Stderr by itself as soon as it is being served
+	ttyErr    bool   // the plugin's stderr is a terminal (somebody ran the binary by hand, or the host gives its plugins a pty)
 }
 
 func (c c16case) String() string {
@@ -51,6 +54,9 @@ func (c c16case) String() string {
 	if c.chatter {
 		s += " plugin-prints-to-its-stdout"
 	}
+	if c.ttyErr {
+		s += " stderr-is-a-terminal"
+	}
 	return s
 }
 
@@ -67,7 +73,7 @@ func TestC16(t *testing.T) {
 				for _, tl := range []string{"none", "provider", "clientcert"} {
 					for _, vd := range []bool{false, true} {
 						for _, mx := range []string{"\x00", "", "true", "false", "1", "junk"} {
-							cases = append(cases, c16case{ck, kv[0], kv[1], proto, tl, vd, mx, "", false, "", false})
+							cases = append(cases, c16case{ck, kv[0], kv[1], proto, tl, vd, mx, "", false, "", false, false})
 						}
 					}
 				}
@@ -80,7 +86,7 @@ func TestC16(t *testing.T) {
 		for _, proto := range []string{"netrpc", "grpc"} {
 			for _, vd := range []bool{false, true} {
 				for _, mx := range []string{"\x00", "true"} {
-					cases = append(cases, c16case{cookieVal, cookieKey, cookieVal, proto, "none", vd, mx, vl, false, "", false})
+					cases = append(cases, c16case{cookieVal, cookieKey, cookieVal, proto, "none", vd, mx, vl, false, "", false, false})
 				}
 			}
 		}
@@ -88,14 +94,14 @@ func TestC16(t *testing.T) {
 	// a TLSProvider that fails: without the right cookie the binary still refuses (status 1, nothing printed)
 	for _, ck := range []string{"\x00", "", cookieVal[:4], cookieVal + " ", strings.ToUpper(cookieVal), "other"} {
 		for _, proto := range []string{"netrpc", "grpc"} {
-			cases = append(cases, c16case{ck, cookieKey, cookieVal, proto, "provider-fail", false, "\x00", "", false, "", false})
+			cases = append(cases, c16case{ck, cookieKey, cookieVal, proto, "provider-fail", false, "\x00", "", false, "", false, false})
 		}
 	}
 	// a plugin whose start-up work takes longer than any internal timer of go-plugin: the line still comes with
 	// a listener that accepts
 	for _, tl := range []string{"none", "clientcert"} {
 		for _, mx := range []string{"\x00", "true", "false"} {
-			cases = append(cases, c16case{cookieVal, cookieKey, cookieVal, "grpc", tl, false, mx, "", true, "", false})
+			cases = append(cases, c16case{cookieVal, cookieKey, cookieVal, "grpc", tl, false, mx, "", true, "", false, false})
 		}
 	}
 	// socket directories whose names contain characters that mean something to a formatter or a shell
@@ -104,6 +110,12 @@ func TestC16(t *testing.T) {
 			for _, mx := range []string{"\x00", "true"} {
 				cases = append(cases, c16case{cookie: cookieVal, cfgKey: cookieKey, cfgVal: cookieVal, proto: proto, tls: "none", mux: mx, dirName: dn})
 			}
+		}
+	}
+	// the plugin's stderr is a pseudo terminal (the binary run by hand, or a host that gives its plugins a pty)
+	for _, ck := range []string{"\x00", "", cookieVal[:4], cookieVal + " ", strings.ToUpper(cookieVal), "other", cookieVal} {
+		for _, proto := range []string{"netrpc", "grpc"} {
+			cases = append(cases, c16case{cookie: ck, cfgKey: cookieKey, cfgVal: cookieVal, proto: proto, tls: "none", mux: "\x00", ttyErr: true})
 		}
 	}
 	// plugin code that prints to its own stdout / stderr right after serving began: that output belongs to the sync
@@ -170,6 +182,19 @@ func TestC16(t *testing.T) {
 			}
 			stdout, _ := cmd.StdoutPipe()
 			cmd.Stderr = io.Discard
+			if c.ttyErr {
+				master, slave, err := openPty()
+				if err != nil {
+					mu.Lock()
+					out.Violations = append(out.Violations, enumViolation{Case: c.String(), Class: "ENGINE", Msg: "no pseudo terminal available: " + err.Error()})
+					mu.Unlock()
+					return
+				}
+				cmd.Stderr = slave
+				go io.Copy(io.Discard, master) // somebody reads the terminal
+				defer master.Close()
+				defer slave.Close()
+			}
 			var viol []string
 			bad := func(f string, a ...any) { viol = append(viol, fmt.Sprintf(f, a...)) }
 			if err := cmd.Start(); err != nil {
@@ -314,4 +339,28 @@ func TestC16(t *testing.T) {
 	}
 	wg.Wait()
 	emit(out)
+}
+
+// openPty opens a pseudo terminal pair through /dev/ptmx.
+func openPty() (master, slave *os.File, err error) {
+	master, err = os.OpenFile("/dev/ptmx", os.O_RDWR|syscall.O_NOCTTY, 0)
+	if err != nil {
+		return nil, nil, err
+	}
+	var unlock int32
+	if _, _, e := syscall.Syscall(syscall.SYS_IOCTL, master.Fd(), syscall.TIOCSPTLCK, uintptr(unsafe.Pointer(&unlock))); e != 0 {
+		master.Close()
+		return nil, nil, e
+	}
+	var n uint32
+	if _, _, e := syscall.Syscall(syscall.SYS_IOCTL, master.Fd(), syscall.TIOCGPTN, uintptr(unsafe.Pointer(&n))); e != 0 {
+		master.Close()
+		return nil, nil, e
+	}
+	slave, err = os.OpenFile(fmt.Sprintf("/dev/pts/%d", n), os.O_RDWR|syscall.O_NOCTTY, 0)
+	if err != nil {
+		master.Close()
+		return nil, nil, err
+	}
+	return master, slave, nil
 }
